@@ -179,6 +179,11 @@ def quilt_ops(total, nother, axis, labels_along, retain):
         ops.append((f'iter_tuple({ax})', 'iter', lambda c, ax=ax: tuple(tuple(t) for t in c.iter_tuple(axis=ax))))
         ops.append((f'iter_window_items(2,{ax})', 'window', lambda c, ax=ax: tuple(c.iter_window_items(size=2, axis=ax))))
         ops.append((f'iter_window_array(2,step2,{ax})', 'window', lambda c, ax=ax: tuple(c.iter_window_array(size=2, step=2, axis=ax))))
+        # values forms with a label shift (the shift decides which windows have a valid anchor, also when no label is delivered)
+        for ls in (1, -1):
+            ops.append((f'iter_window(2,label_shift={ls},{ax})', 'window', lambda c, ax=ax, ls=ls: tuple(c.iter_window(size=2, label_shift=ls, axis=ax))))
+            ops.append((f'iter_window_array(2,label_shift={ls},{ax})', 'window', lambda c, ax=ax, ls=ls: tuple(c.iter_window_array(size=2, label_shift=ls, axis=ax))))
+            ops.append((f'iter_window_items(2,label_shift={ls},{ax})', 'window', lambda c, ax=ax, ls=ls: tuple(c.iter_window_items(size=2, label_shift=ls, axis=ax))))
         n_ax = (n_r, n_c)[ax]
         for size in sorted({3, max(1, n_ax - 1), n_ax}):
             if size <= n_ax:
@@ -378,6 +383,23 @@ def run_batch(case, ctx):
                     ref = sf.Frame.from_concat(tuple(v.rename(k) for k, v in exp.items()), axis=0)
                 if coarse(snapany(tf)) != coarse(snapany(ref)):
                     ctx.violation(f'batch|to_frame|{names[-1]}', **info, got=repr(coarse(snapany(tf)))[:400], expected=repr(coarse(snapany(ref)))[:400])
+                # 1-D results side by side (axis 1), with and without explicit labels on the other axis
+                if all(isinstance(v, sf.Series) for v in exp.values()) and len({tuple(v.index.values.tolist()) for v in exp.values()}) == 1:
+                    ser = list(exp.values())
+                    ref1 = sf.Frame.from_concat(tuple(v.rename(k) for k, v in exp.items()), axis=1)
+                    variants = [('axis=1', dict(axis=1), ref1),
+                                ('axis=1,index', dict(axis=1, index=ser[0].index), ref1),
+                                ('axis=1,columns', dict(axis=1, columns=['u%d' % i for i in range(len(ser))]), ref1.relabel(columns=['u%d' % i for i in range(len(ser))]))]
+                    for vn, kw, rf in variants:
+                        b = sf.Batch.from_frames(frames)
+                        for op in chain:
+                            b = apply_op(op, b, True)
+                        try:
+                            t1 = b.to_frame(**kw)
+                            if coarse(snapany(t1)) != coarse(snapany(rf)):
+                                ctx.violation(f'batch|to_frame({vn})|{names[-1]}', **info, got=repr(coarse(snapany(t1)))[:300], expected=repr(coarse(snapany(rf)))[:300])
+                        except Exception as e:
+                            ctx.violation(f'batch|to_frame({vn})|raises-{type(e).__name__}', **info, error=repr(e))
                 if all(isinstance(v, sf.Frame) for v in exp.values()):
                     b = sf.Batch.from_frames(frames)
                     for op in chain:
